@@ -24,8 +24,8 @@ with its memo table disabled returns the same circuit), `C14_refs_valid` (indepe
 literal indices and slices in range, sources are registers, arity and kinds fit, definitions known, names distinct, one
 register) — these three on generated program TEXTS; the `_handmade_sx` variants run the same checks on hand-made
 S-expressions, where one input is known to fail both (a `usepulses` child after a gate statement, which the parser cannot
-produce; see Props/C07.lean `C07_memo_stale_after_usepulses`).  The exact (int vs float) form of C07 fails on
-`g 1; g 1.0`; that is counted in `distribution`, not as an oracle failure.
+produce; see Props/C07.lean `C07_memo_stale_after_usepulses`).  Since the memo key types its numbers (`g 1` / `g 1.0`)
+the exact form of C07 holds too; a deviation in an int/float literal only would be counted in `distribution`.
 
 The model answers `Unmodelled:<why>` on inputs that would make the Python build an object the IR cannot hold; on those
 the script checks that the Python raised or produced something `dump.circuit` cannot dump, and tabulates what it did.
@@ -298,6 +298,12 @@ FIXED_PROGRAMS = [
     "register r[2]\nmacro m a a { g a }\nm 1 2\n",
     "register r[2]\nmacro m a a { g a }\n",
     "register r[2]\ng r[r]\n",
+    "register r[2]\nmap q r[0]\ng r[q]\n",
+    "register r[2]\nregister s[r]\ng s[0]\n",
+    "register r[2]\nregister s[r]\nmap a s[0:1]\n",
+    "register r[4]\nmap a r[0:r]\n",
+    "register r[4]\nmap a r[0:2:r]\n",
+    "register r[2]\ng 0.0\ng -0.0\ng 2\ng 2e0\n",
     "register r[4]\nmap a r[r:2]\n",
     "let z 0\nregister r[4]\nmap a r[0:2:z]\nmap b a[:]\n",
     "let z 0\nregister r[4]\nmap a r[0:2:z]\ng a[0]\n",
@@ -871,11 +877,13 @@ def run(seed: int, n: int, driver: str = DEFAULT_DRIVER, thorough: bool = False)
             _bump(res, "model: memo and no-memo builds differ")
         # oracle on the real code alone: the memo table changes nothing (numbers compared by value)
         memo_oracle = "C07_memo_transparent" if c["kind"] == "text" else "C07_memo_transparent_handmade_sx"
-        res["oracle"][memo_oracle]["cases"] += 1
-        if canon(numnorm(impl)) != canon(numnorm(impl2)):
+        unmodelled = "err" in model and model["err"].startswith("Unmodelled")
+        if not (c["kind"] == "sx" and unmodelled):  # junk shapes (e.g. a register sized by a block) are not judged
+            res["oracle"][memo_oracle]["cases"] += 1
+        if canon(numnorm(impl)) != canon(numnorm(impl2)) and not (c["kind"] == "sx" and unmodelled):
             _record(res["oracle"][memo_oracle]["failures"],
                     {"case": c, "detail": f"with memo {canon(impl)[:600]} / without {canon(impl2)[:600]}"})
-        elif canon(impl) != canon(impl2):
+        elif canon(impl) != canon(impl2) and not (c["kind"] == "sx" and unmodelled):
             _bump(res, "python: memo changes an int/float literal (g 1; g 1.0)")
             if res["distribution"]["python: memo changes an int/float literal (g 1; g 1.0)"] <= 2:
                 res["samples"].append({"note": "memo changes an int/float literal", "case": c})
